@@ -1453,7 +1453,7 @@ pub fn run_c16(ctx: &Ctx) -> i32 {
     );
     let seen = Seen { views: Mutex::new(HashMap::new()), ops: Mutex::new(HashMap::new()) };
     let parent_ids: Mutex<BTreeMap<u64, (String, String)>> = Mutex::new(BTreeMap::new());
-    let n = ctx.tier().pick(12_000, 1_000_000);
+    let n = ctx.tier().pick(24_000, 1_000_000);
     par_cases(ctx, n, threads(), |i, cs, rng| {
         let case = gen_c16_case(rng);
         let describe = || {
